@@ -1,5 +1,6 @@
 //! avroverif — runtime monitors for Ten0/serde_avro_fast (see /verif/DESIGN.md)
 
+mod alloc;
 mod bridge;
 mod gen;
 mod io;
@@ -11,6 +12,10 @@ mod run;
 mod sut;
 
 use run::PropSpec;
+
+#[cfg(not(any(miri, feature = "no_alloc_monitor")))]
+#[global_allocator]
+static GLOBAL: alloc::Counting = alloc::Counting;
 
 fn spec(id: &str) -> Option<&'static PropSpec> {
 	props::ALL.iter().copied().find(|s| s.id == id)
